@@ -390,6 +390,31 @@ impl DynGroup {
 
             trace!(?matches);
 
+            // force_cand_updates is the replication-with-conflicts path: the candidates are
+            // the entries as they were applied, but the conflict plugins may already have
+            // moved some of them to the conflict (recycled) state in the database. Those
+            // must not be (re-)asserted as members.
+            let matches = if force_cand_updates {
+                let mut checked = Vec::with_capacity(matches.len());
+                for choice in matches {
+                    match choice {
+                        Ok(u) => {
+                            let live =
+                                filter!(f_eq(Attribute::Uuid, PartialValue::Uuid(u)));
+                            if qs.internal_exists(&live)? {
+                                checked.push(Ok(u));
+                            } else {
+                                checked.push(Err(u));
+                            }
+                        }
+                        Err(u) => checked.push(Err(u)),
+                    }
+                }
+                checked
+            } else {
+                matches
+            };
+
             if !matches.is_empty() {
                 let filt = filter!(f_eq(Attribute::Uuid, PartialValue::Uuid(*dg_uuid)));
                 let mut work_set = qs.internal_search_writeable(&filt)?;
